@@ -197,6 +197,8 @@ def c08(work, tier, seed):
                 + allmoves_jobs(seed, 16, "board"))
     board_traces(work, vh, rep, ["C08"], jobs)
     require(rep, ["pop", "fork", "push-refused", "push:KingSideCastle", "push:Capture"], "C08")
+    # the boards an engine hands out (Engine.Board()) across moves, take-backs and new games
+    engine_api(work, vh, rep, "C08", seed, tier)
     rep.assumptions = ["take-backs below the fork point of a live fork are outside the contract and never generated",
                        "'not-drawn result' after a take-back is demanded only where the line popped to contains no drawn position"]
     return rep.finish(work)
